@@ -369,7 +369,7 @@ func c18Docs() []doc.Doc {
 
 func c18(r *hx.Run) {
 	fx.Quiet()
-	r.Rule = "(1) validator: the full product of key-entry variants (12 ids x 9 types x 14 purpose sets x 10 key-material shapes; every subset of {publicKeyJwk, publicKeyBase58, publicKeyMultibase} for every type), service variants (9 ids x 6 types x 17 endpoint shapes), list-level variants (duplicates, pairs; the same id twice for every ordered pair of accepted key / service shapes, adjacent and separated, in add and replace), replace documents built from them, every patch action disabled in turn, and JSON-patch operation lists over all six RFC 6902 operations x 22 paths x 12 from values x 6 values (thorough: all ordered pairs) are validated by the real ValidateDelta: accepted => the statement's structural predicate; (2) every accepted delta is applied by the real composer to 18 small documents (incl. alsoKnownAs states that an accepted JSON patch can leave behind: non-URI strings, non-strings, no list): document or error, never a panic or a hang, and an accepted JSON patch leaves the key and service sections unchanged. Non-trivial: distinct accepted deltas and distinct deltas rejected by a rule."
+	r.Rule = "(1) validator: the full product of key-entry variants (12 ids x 9 types x 14 purpose sets x 10 key-material shapes; every subset of {publicKeyJwk, publicKeyBase58, publicKeyMultibase} for every type), service variants (9 ids x 6 types x 17 endpoint shapes), list-level variants (duplicates, pairs; the same id twice for every ordered pair of accepted key / service shapes, adjacent and separated, in add and replace), replace documents built from them, every length 1..600 of key ids, service ids and service types, every patch action disabled in turn, and JSON-patch operation lists over all six RFC 6902 operations x 22 paths x 12 from values x 6 values (thorough: all ordered pairs) are validated by the real ValidateDelta: accepted => the statement's structural predicate; (2) every accepted delta is applied by the real composer to 18 small documents (incl. alsoKnownAs states that an accepted JSON patch can leave behind: non-URI strings, non-strings, no list): document or error, never a panic or a hang, and an accepted JSON patch leaves the key and service sections unchanged. Non-trivial: distinct accepted deltas and distinct deltas rejected by a rule."
 	ver := fx.NewVersion(fx.DefaultProtocol(), nil)
 	docs := c18Docs()
 	uc := fx.Commit(fx.NewKey(fx.Ed25519, "c18/uc"), fx.SHA256)
@@ -603,6 +603,18 @@ func c18(r *hx.Run) {
 	for i, m := range misc {
 		check("misc", i, m)
 	}
+	// ---- every length 1..600 of a key id, a service id and a service type (limits 50 / 50 / 30), in add and in replace
+	hx.ParallelFor(600, func(i int) {
+		n := i + 1
+		id := strings.Repeat("k", n)
+		check("len-key-id", n, map[string]interface{}{"action": "add-public-keys", "publicKeys": []interface{}{good(id)}})
+		check("len-service-id", n, map[string]interface{}{"action": "add-services", "services": []interface{}{gs(id)}})
+		st := gs("s1")
+		st["type"] = strings.Repeat("T", n)
+		check("len-service-type", n, map[string]interface{}{"action": "add-services", "services": []interface{}{st}})
+		check("len-replace", n, map[string]interface{}{"action": "replace", "document": map[string]interface{}{"publicKeys": []interface{}{good(id)}, "services": []interface{}{st}}})
+	})
+	r.State()
 	// ---- disabled actions
 	for _, a := range fx.AllPatches {
 		p := fx.DefaultProtocol()
